@@ -94,24 +94,25 @@ class Interp:
                             env[e_.id] = UNK
             return None
         if isinstance(st, ast.If):
-            t = st.test
-            if isinstance(t, ast.Compare) and isinstance(t.ops[0], ast.Is) and U(t.comparators[0]) == "None" and isinstance(t.left, ast.Name):
-                if env.get(t.left.id) == ("none",):
-                    for s in st.body:
-                        r = self.exec(f, s, env)
-                        if r is not None:
-                            return r
-                else:
-                    for s in st.orelse:
-                        r = self.exec(f, s, env)
-                        if r is not None:
-                            return r
-            if isinstance(t, ast.Call) and fn_name(t) == "isinstance":
+            t, pos = st.test, True
+            while isinstance(t, ast.UnaryOp) and isinstance(t.op, ast.Not):
+                t, pos = t.operand, not pos
+            take = None     # which arm is executed
+            if isinstance(t, ast.Compare) and len(t.ops) == 1 and isinstance(t.ops[0], (ast.Is, ast.IsNot)):
+                a, b = t.left, t.comparators[0]
+                if U(a) == "None":
+                    a, b = b, a
+                if U(b) == "None" and isinstance(a, ast.Name):
+                    is_none = env.get(a.id) == ("none",)
+                    truth = is_none if isinstance(t.ops[0], ast.Is) else not is_none
+                    take = st.body if truth == pos else st.orelse
+            elif isinstance(t, ast.Call) and fn_name(t) == "isinstance":
                 # _extract_kernel_and_scale: treat the kernel as the tuple form (kernel, scale)
-                for s in st.body:
-                    r = self.exec(f, s, env)
-                    if r is not None:
-                        return r
+                take = st.body if pos else st.orelse
+            for s in take or []:
+                r = self.exec(f, s, env)
+                if r is not None:
+                    return r
             return None
         if isinstance(st, ast.Return):
             try:
